@@ -11,7 +11,7 @@
 //! table-only deviation from an otherwise honest assignment.
 
 use std::{
-    collections::BTreeSet,
+    collections::BTreeMap,
     marker::PhantomData,
     sync::{Arc, Mutex},
 };
@@ -163,7 +163,7 @@ pub struct Fam<PL> {
     /// The instance columns as the prover knows them (needed to compute cells tied to them).
     pub inst: Option<Vec<Vec<F>>>,
     pub overrides: Vec<(CellId, Fault)>,
-    pub log: Arc<Mutex<BTreeSet<CellId>>>,
+    pub log: Arc<Mutex<BTreeMap<CellId, Option<F>>>>,
     _pl: PhantomData<PL>,
 }
 
@@ -232,7 +232,7 @@ impl<PL> Fam<PL> {
             w,
             inst,
             overrides: vec![],
-            log: Arc::new(Mutex::new(BTreeSet::new())),
+            log: Arc::new(Mutex::new(BTreeMap::new())),
             _pl: PhantomData,
         }
     }
@@ -242,8 +242,9 @@ impl<PL> Fam<PL> {
         self
     }
 
-    pub fn logged_cells(&self) -> Vec<CellId> {
-        self.log.lock().unwrap().iter().cloned().collect()
+    /// Cells assigned so far, with their honest value where it was known.
+    pub fn logged_cells(&self) -> Vec<(CellId, Option<F>)> {
+        self.log.lock().unwrap().iter().map(|(k, v)| (*k, *v)).collect()
     }
 
     fn put(
@@ -256,7 +257,11 @@ impl<PL> Fam<PL> {
         honest: Value<F>,
     ) -> Result<AssignedCell<F, F>, Error> {
         let id: CellId = (rname, cname, offset);
-        self.log.lock().unwrap().insert(id);
+        {
+            let mut log = self.log.lock().unwrap();
+            let e = log.entry(id).or_insert(None);
+            honest.map(|h| *e = Some(h));
+        }
         let v = match self.overrides.iter().find(|(c, _)| *c == id) {
             Some((_, fault)) => honest.map(|h| apply_fault(fault, h)),
             None => honest,
@@ -489,6 +494,7 @@ impl<PL: FloorPlanner> Circuit<F> for Fam<PL> {
             || "mn",
             |mut region| {
                 let mut outs = vec![];
+                let mut ins = vec![];
                 for j in 0..rows {
                     if let Some(q) = cfg.q_main {
                         q.enable(&mut region, j)?;
@@ -499,15 +505,16 @@ impl<PL: FloorPlanner> Circuit<F> for Fam<PL> {
                         j,
                         || Value::known(F::from(j as u64 + 2)),
                     )?;
-                    self.put(&mut region, "mn", "a", cfg.a, j, self.wv(|w| w.xs[j]))?;
+                    ins.push(self.put(&mut region, "mn", "a", cfg.a, j, self.wv(|w| w.xs[j]))?);
                     self.put(&mut region, "mn", "b", cfg.b, j, self.wv(|w| w.ys[j]))?;
                     let c =
                         self.put(&mut region, "mn", "c", cfg.c, j, self.wv(|w| main_out(p, w, j)))?;
                     outs.push(c);
                 }
-                Ok(outs)
+                Ok((ins, outs))
             },
         )?;
+        let (main_ins, main_cells) = main_cells;
         if p.copy_inst {
             for (j, cell) in main_cells.iter().enumerate() {
                 let (col, row) = (j % n_inst, 2 + j / n_inst);
@@ -655,9 +662,10 @@ impl<PL: FloorPlanner> Circuit<F> for Fam<PL> {
                 || "cp",
                 |mut region| {
                     if p.copy_adv {
-                        let v = self.wv(|w| main_out(p, w, 0));
+                        // tied to an input cell of the main region (a pure advice-advice cycle)
+                        let v = self.wv(|w| w.xs[0]);
                         let cell = self.put(&mut region, "cp", "a", cfg.a, 0, v)?;
-                        region.constrain_equal(cell.cell(), main_cells[0].cell())?;
+                        region.constrain_equal(cell.cell(), main_ins[0].cell())?;
                     }
                     if p.copy_const {
                         let cell =
